@@ -296,14 +296,23 @@ func (s *rstack) apply(m *model, o op) (res string) {
 	switch o.Kind {
 	case opPut:
 		k := sc.Keys[o.Key]
-		if uk, ok := s.daoKey(k); ok {
+		if uk, ok := s.daoKey(k); ok && o.Layer == len(s.ly) {
+			// top layer: the way a contract writes (System.Storage.Put / Local.Put)
+			if err := interopPut(newIC(s.daos[o.Layer-1]), uk, vals[o.Val], o.Key); err != nil {
+				return "error: " + err.Error()
+			}
+		} else if ok {
 			s.daos[o.Layer-1].PutStorageItem(daoID, uk, vals[o.Val])
 		} else {
 			s.ly[o.Layer-1].Put([]byte(k), vals[o.Val])
 		}
 	case opDel:
 		k := sc.Keys[o.Key]
-		if uk, ok := s.daoKey(k); ok {
+		if uk, ok := s.daoKey(k); ok && o.Layer == len(s.ly) {
+			if err := interopDelete(newIC(s.daos[o.Layer-1]), uk, o.Key); err != nil {
+				return "error: " + err.Error()
+			}
+		} else if ok {
 			s.daos[o.Layer-1].DeleteStorageItem(daoID, uk)
 		} else {
 			s.ly[o.Layer-1].Delete([]byte(k))
